@@ -2,7 +2,7 @@
 # usage: tools/seed_sweep.sh <seed>... : every quick check under other seeds (no evidence written); prints one line per run
 ./setup.sh > /dev/null 2>&1
 for seed in "$@"; do
-  for id in C01 C02 C03 C04 C05 C06 C07 C08 C09 C10 C11 C12 C13 C14 C15 C16 C17 C18 C19 C20 X01 X02 X03 X04; do
+  for id in C01 C02 C03 C04 C05 C06 C07 C08 C09 C10 C11 C12 C13 C14 C15 C16 C17 C18 C19 C20 X01 X02 X03 X04 X05; do
     s=$(date +%s)
     out=$(VERIF_SEED=$seed VERIF_NO_EVIDENCE=1 ./check $id 2>&1); rc=$?
     e=$(date +%s)
